@@ -6,6 +6,7 @@ package main
 import (
 	"bytes"
 	"fmt"
+	"hash/fnv"
 	"os"
 	"os/exec"
 	"reflect"
@@ -83,6 +84,72 @@ func snapshot(x any) J {
 		return J{"k": "map", "v": out}
 	}
 	return J{"k": "str", "v": bytesJSON(fmt.Sprintf("<%T>", x))}
+}
+
+// goSig is a fingerprint of a binding as a Go value: the types at every node (a Drop is not its value, a typed
+// slice is not a generic one), every scalar, and for slices also what lies between their length and their capacity.
+func goSig(x any, depth int) string {
+	if x == nil {
+		return "nil"
+	}
+	if depth > 12 {
+		return "..."
+	}
+	if d, ok := x.(testDrop); ok {
+		return "drop<" + goSig(d.v, depth+1) + ">"
+	}
+	rv := reflect.ValueOf(x)
+	t := rv.Type().String()
+	switch rv.Kind() {
+	case reflect.Ptr:
+		if rv.IsNil() {
+			return t + "(nil)"
+		}
+		return "*" + goSig(rv.Elem().Interface(), depth+1)
+	case reflect.Slice:
+		if rv.IsNil() {
+			return t + "(nil)"
+		}
+		full := rv.Slice(0, rv.Cap())
+		parts := make([]string, full.Len())
+		for i := range parts {
+			parts[i] = goSig(full.Index(i).Interface(), depth+1)
+		}
+		return fmt.Sprintf("%s[%d/%d](%s)", t, rv.Len(), rv.Cap(), strings.Join(parts, ","))
+	case reflect.Array:
+		parts := make([]string, rv.Len())
+		for i := range parts {
+			parts[i] = goSig(rv.Index(i).Interface(), depth+1)
+		}
+		return t + "(" + strings.Join(parts, ",") + ")"
+	case reflect.Map:
+		if rv.IsNil() {
+			return t + "(nil)"
+		}
+		parts := []string{}
+		for _, k := range rv.MapKeys() {
+			parts = append(parts, fmt.Sprintf("%v:%s", k.Interface(), goSig(rv.MapIndex(k).Interface(), depth+1)))
+		}
+		sort.Strings(parts)
+		return t + "{" + strings.Join(parts, ",") + "}"
+	case reflect.Struct:
+		parts := []string{}
+		for i := 0; i < rv.NumField(); i++ {
+			if rv.Type().Field(i).IsExported() {
+				parts = append(parts, rv.Type().Field(i).Name+":"+goSig(rv.Field(i).Interface(), depth+1))
+			}
+		}
+		return t + "{" + strings.Join(parts, ",") + "}"
+	case reflect.Func, reflect.Chan, reflect.UnsafePointer:
+		return t
+	}
+	return fmt.Sprintf("%s=%v", t, x)
+}
+
+func envSig(m map[string]any) string {
+	h := fnv.New64a()
+	h.Write([]byte(goSig(m, 0)))
+	return fmt.Sprintf("%016x", h.Sum64())
 }
 
 func snapshotEnv(m map[string]any) []any {
@@ -239,6 +306,7 @@ func runSession(c J) J {
 		ev := J{"t": t, "b": b, "entry": entry, "i": i}
 		if snap {
 			ev["before"] = snapshotEnv(envs[b])
+			ev["beforesig"] = envSig(envs[b])
 		}
 		res := guard(func() result {
 			e := eng
@@ -304,6 +372,7 @@ func runSession(c J) J {
 		res.put(ev)
 		if snap {
 			ev["after"] = snapshotEnv(envs[b])
+			ev["aftersig"] = envSig(envs[b])
 		}
 		events[i] = ev
 	}
@@ -317,8 +386,10 @@ func runSession(c J) J {
 			defer runtime.GOMAXPROCS(runtime.GOMAXPROCS(p))
 		}
 		before := make([][]any, len(envs))
+		beforeSig := make([]string, len(envs))
 		for j := range envs {
 			before[j] = snapshotEnv(envs[j])
+			beforeSig[j] = envSig(envs[j])
 		}
 		var wg sync.WaitGroup
 		start := make(chan struct{})
@@ -385,6 +456,8 @@ func runSession(c J) J {
 			b := ev["b"].(int)
 			ev["before"] = before[b]
 			ev["after"] = snapshotEnv(envs[b])
+			ev["beforesig"] = beforeSig[b]
+			ev["aftersig"] = envSig(envs[b])
 		}
 	}
 	obs["events"] = events
